@@ -315,17 +315,17 @@ func gatedLogger(pol log.BufferFullPolicy) (*log.AsyncLogger, *sys.RecAppender, 
 	return lg, gate, nil
 }
 
-// arrivalsSurvive: DiscardOldest keeps the arriving item.  The buffer is full of fillers, the worker parked; 8
-// producers submit 10 items each at the same time.  Fewer arrivals than fillers: every arrival must be delivered in
+// arrivalsSurvive: DiscardOldest keeps the arriving item.  The buffer is full of fillers, the worker parked; 12
+// producers submit 7 items each at the same time (80 rounds).  Fewer arrivals than fillers: every arrival must be delivered in
 // the end, exactly the oldest fillers are gone, and the counter equals the number of arrivals.
 func arrivalsSurvive(r *hx.Result) {
-	for round := 0; round < 25 && !hx.Stopped(); round++ {
+	for round := 0; round < 80 && !hx.Stopped(); round++ {
 		lg, gate, err := gatedLogger(log.BufferFullPolicyDiscardOldest)
 		if err != nil {
 			r.SetInfra("arrivalsSurvive: %v", err)
 			return
 		}
-		const P, K = 8, 10
+		const P, K = 12, 7
 		var wg sync.WaitGroup
 		start := make(chan struct{})
 		for p := 1; p <= P; p++ {
